@@ -249,10 +249,13 @@ func absCRL(l *x509.RevocationList, issuer *x509.Certificate) map[string]any {
 // scripted crl.Fetcher
 
 type fetchBehaviour struct {
-	bundle *corecrl.Bundle
-	err    error
-	panicV any
-	block  chan struct{} // if set: wait until closed (or ctx done)
+	// where the base list of the bundle says its delta is (set when the bundle has a delta): lets the bundle be served over
+	// HTTP through the real fetcher
+	deltaURL string
+	bundle   *corecrl.Bundle
+	err      error
+	panicV   any
+	block    chan struct{} // if set: wait until closed (or ctx done)
 }
 
 type scriptedFetcher struct {
